@@ -136,9 +136,23 @@ func repair(m protoreflect.Message, depth int) {
 			case protoreflect.Fixed64Kind:
 				clampU(m, fd, r.GetFixed64().GetGte(), r.GetFixed64().LessThan != nil, r.GetFixed64().GetLte())
 			case protoreflect.FloatKind:
-				clampF(m, fd, float64(r.GetFloat().GetGte()), r.GetFloat().LessThan != nil, float64(r.GetFloat().GetLte()), true)
+				switch fr := r.GetFloat(); {
+				case fr.Const != nil:
+					m.Set(fd, protoreflect.ValueOfFloat32(fr.GetConst()))
+				case len(fr.GetIn()) > 0:
+					m.Set(fd, protoreflect.ValueOfFloat32(fr.GetIn()[0]))
+				default:
+					clampF(m, fd, float64(fr.GetGte()), fr.LessThan != nil, float64(fr.GetLte()), true)
+				}
 			case protoreflect.DoubleKind:
-				clampF(m, fd, r.GetDouble().GetGte(), r.GetDouble().LessThan != nil, r.GetDouble().GetLte(), false)
+				switch dr := r.GetDouble(); {
+				case dr.Const != nil:
+					m.Set(fd, protoreflect.ValueOfFloat64(dr.GetConst()))
+				case len(dr.GetIn()) > 0:
+					m.Set(fd, protoreflect.ValueOfFloat64(dr.GetIn()[0]))
+				default:
+					clampF(m, fd, dr.GetGte(), dr.LessThan != nil, dr.GetLte(), false)
+				}
 			}
 		}
 	}
